@@ -88,6 +88,9 @@ fn main() {
             let text = std::fs::read_to_string(&args[2]).expect("read replay file");
             let v: serde_json::Value = serde_json::from_str(&text).expect("parse replay file");
             let ok = checks::replay(&v);
+            if util::was_not_replayable() {
+                std::process::exit(3);
+            }
             std::process::exit(if ok { 0 } else { 1 });
         }
         _ => {
